@@ -69,6 +69,7 @@ class Ctx:
         self.contracts = contracts or {}
         self.config = config or {}
         self.obligations = []       # precondition obligations raised at call sites etc.
+        self.safety = []            # exception edges refuted during execution (unit, exception, origin)
         self.oid = itertools.count(1)
         self.feas_cache = {}
         self.feas_calls = 0
@@ -143,6 +144,10 @@ def branch(ctx, st, cases):
         s2 = assume(ctx, st, cond)
         if s2 is not None:
             out.append((s2, payload))
+        elif isinstance(payload, Raised):
+            # an exception edge shown unreachable: a discharged safety obligation
+            exc = payload.exc
+            ctx.safety.append((st.unit.key if st.unit else "?", getattr(exc, "cls", "?"), getattr(exc, "origin", "")))
     return out
 
 
